@@ -271,7 +271,7 @@ ArmMisc(w) ==
        [] op2 = 1 /\ op = 1 -> [k |-> "bx", enc |-> "BX_A1", m |-> m, unp |-> ~sbo]
        [] op2 = 3 /\ op = 1 -> [k |-> "blxr", enc |-> "BLX_r_A1", m |-> m, unp |-> m = 15 \/ ~sbo]
        [] op2 = 2 /\ op = 1 -> [k |-> "bxj", enc |-> "BXJ_A1", m |-> m, unp |-> m = 15 \/ ~sbo]
-       [] OTHER -> Unspec("arm-misc")
+       [] OTHER -> Unimpl("arm-misc-unallocated")
 
 \* A5.2.10 synchronization primitives (ARM): LDREX/STREX and the byte / halfword / doubleword forms (ARMv6 / v6K on).
 \* SWP / SWPB are not specified (the emulator prints "deprecated" and treats them as UNDEFINED).
@@ -375,7 +375,7 @@ ArmUncond(w) ==
   ELSE IF Slice(w, 27, 24) = 4 /\ Bit(w, 20) = 0 THEN Unimpl("arm-advsimd-ls")
   ELSE IF Slice(w, 27, 26) = 1 THEN Nopish("arm-memhint-barrier")
   ELSE IF Slice(w, 27, 26) = 3 /\ Slice(w, 25, 24) # 3 THEN CoprocSpace(w, "_A2", FALSE)
-  ELSE Unspec("arm-unconditional")
+  ELSE Unimpl("arm-unconditional-unallocated")
 
 ArmDecode(w, dx) ==
   LET cond == Slice(w, 31, 28)  op1 == Slice(w, 27, 25) IN
@@ -483,7 +483,7 @@ T16Misc(h, dx) ==
                unp |-> ~ITLegal(Bits(h, 7, 4), Bits(h, 3, 0)) \/ InITBlock(dx.it)]
          ELSE IF Bits(h, 7, 4) \in 0..4
               THEN [k |-> "hint", enc |-> "HINT_T1", h |-> <<"NOP", "YIELD", "WFE", "WFI", "SEV">>[Bits(h, 7, 4) + 1], unp |-> FALSE]
-              ELSE Unspec("t16-hints-unallocated")
+              ELSE Nopish("t16-hints-unallocated")
     [] Bits(h, 11, 5) = 50 -> [k |-> "setend", enc |-> "SETEND_T1", e |-> Bits(h, 3, 3),
                                unp |-> InITBlock(dx.it) \/ Bits(h, 4, 4) # 1 \/ Bits(h, 2, 0) # 0]
     [] Bits(h, 11, 5) = 51 -> [k |-> "cps", enc |-> "CPS_T1", enable |-> Bits(h, 4, 4) = 0, disable |-> Bits(h, 4, 4) = 1,
@@ -491,7 +491,7 @@ T16Misc(h, dx) ==
                                changemode |-> FALSE, mode |-> 0,
                                unp |-> InITBlock(dx.it) \/ Bits(h, 2, 0) = 0 \/ Bits(h, 3, 3) # 0]
     [] Bits(h, 11, 8) = 14 -> Unimpl("bkpt")                                   \* BKPT T1 (0xBExx)
-    [] OTHER -> Unspec("t16-misc")
+    [] OTHER -> Unimpl("t16-misc-unallocated")
 
 T16CondBranchSvc(h, dx) ==
   LET cond == Bits(h, 11, 8) IN
@@ -707,7 +707,7 @@ T32Excl(w, dx) ==
      THEN LET size == IF op3 = 4 THEN 1 ELSE IF op3 = 5 THEN 2 ELSE 8 IN
           [k |-> "ldrex", enc |-> "LDREX" \o ExSfx(size) \o "_T1", size |-> size, t |-> r12, t2 |-> r8, n |-> n, imm |-> Zero,
            unp |-> BadReg(r12) \/ n = 15 \/ r0 # 15 \/ (IF size = 8 THEN BadReg(r8) \/ r8 = r12 ELSE r8 # 15)]
-     ELSE Unspec("t32-exclusive-other")
+     ELSE Unimpl("t32-exclusive-unallocated")
 
 \* A6.3.6 load/store dual, table branch
 T32DualExclTB(w, dx) ==
@@ -796,7 +796,7 @@ T32BranchMisc(w, dx) ==
                          unp |-> BadReg(Slice(w, 11, 8)) \/ Slice(w, 19, 16) # 15 \/ Slice(w, 7, 0) # 0 \/ Bit(w, 13) # 0]
                    [] op = 127 /\ op1 = 0 -> [k |-> "smc", enc |-> "SMC_T1", unp |-> midITx \/ Slice(w, 11, 0) # 0]
                    [] op = 127 /\ op1 = 2 -> [k |-> "undef", enc |-> "UDF_T2", unp |-> FALSE]
-                   [] OTHER -> Unspec("t32-misc-control")
+                   [] OTHER -> Unimpl("t32-misc-control-other")
        [] op1 \in {1, 3} -> [k |-> "b", enc |-> "B_T4", imm |-> SignExtW(off25, 25), unp |-> midIT]
        [] op1 \in {5, 7} -> [k |-> "bl", enc |-> "BL_T1", tiset |-> "THUMB", imm |-> SignExtW(off25, 25), unp |-> midIT]
        [] op1 \in {4, 6} -> IF Bit(w, 0) = 1 THEN Undef
